@@ -608,7 +608,7 @@ protected:
   virtual bool IsProblemInfeasible() const {
     assert( IsSolStatusRetrieved() );
     auto sc = SolveCode();
-    return sol::INFEASIBLE<=sc && sol::INFEASIBLE_LAST>sc;
+    return sol::INFEASIBLE<=sc && sol::INFEASIBLE_LAST>=sc;
   }
   virtual bool IsProblemUnbounded() const {
     assert( IsSolStatusRetrieved() );
